@@ -1,6 +1,7 @@
 package main
 
 import (
+	"go/types"
 	"strings"
 
 	"golang.org/x/tools/go/ssa"
@@ -70,4 +71,89 @@ func (e *Exec) onLock(st *State, fr *Frame, site ssa.Instruction, m *Term, exclu
 			e.check(st, fr, "LOCK.inv", site, "lockinv "+key+": "+inv.Text+" | "+e.P.srcLine(site.Pos()), g)
 		}
 	}
+}
+
+// ---- protected fields (lockset discipline, property C15) ------------------------------------
+
+func (e *Exec) protectOf(heap string) *Protect {
+	db := e.db
+	if db.protectH == nil {
+		db.protectH = map[string]*Protect{}
+		for _, pr := range db.protectList {
+			parts := strings.Split(pr.Field, ".")
+			if len(parts) != 3 {
+				panic(sperr("protect: bad field %s", pr.Field))
+			}
+			var tp *types.Package
+			for _, p := range e.P.tpkgs {
+				if p.Name() == parts[0] {
+					tp = p
+				}
+			}
+			if tp == nil {
+				panic(sperr("protect: unknown package %s", parts[0]))
+			}
+			obj := tp.Scope().Lookup(parts[1])
+			if obj == nil {
+				panic(sperr("protect: unknown type %s", pr.Field))
+			}
+			st, ok := obj.Type().Underlying().(*types.Struct)
+			if !ok {
+				panic(sperr("protect: %s is not a struct", parts[1]))
+			}
+			fi, li := -1, -1
+			for i := 0; i < st.NumFields(); i++ {
+				if st.Field(i).Name() == parts[2] {
+					fi = i
+				}
+				if st.Field(i).Name() == pr.Lock {
+					li = i
+				}
+			}
+			if fi < 0 || li < 0 {
+				panic(sperr("protect: %s / %s: no such field", pr.Field, pr.Lock))
+			}
+			pr.st, pr.lockIdx = obj.Type(), li
+			h, _, _ := fieldHeap(obj.Type(), fi)
+			db.protectH[h] = pr
+		}
+	}
+	return db.protectH[heap]
+}
+
+// checkProtected: PROT obligation for a load or store through a field address
+func (e *Exec) checkProtected(st *State, fr *Frame, instr ssa.Instruction, addr Val, write bool) {
+	a, ok := addr.(*HeapAddr)
+	if !ok || len(e.db.protectList) == 0 {
+		return
+	}
+	pr := e.protectOf(a.heap)
+	if pr == nil {
+		return
+	}
+	if pr.Unlocked[shortName(fr.fn)] || pr.Unlocked[shortName(e.top)] {
+		return
+	}
+	base := a.idx
+	lock := faTerm(pr.st, pr.lockIdx, base)
+	held := Select(ghostBool(st, "held"), lock)
+	if !write {
+		held = Or(held, Select(ghostBool(st, "rheld"), lock))
+	}
+	// an object allocated by this function and not yet visible to other threads
+	entry := st.frames[0].entry
+	goal := held
+	if entry != nil {
+		goal = Or(Not(Allocd(entry.alloc, base)), held)
+	}
+	class := "PROT.read"
+	if write {
+		class = "PROT.write"
+	}
+	save := e.curTags
+	e.curTags = []string{"C15"}
+	e.noAssume = true
+	defer func() { e.noAssume = false }()
+	e.check(st, fr, class, instr, pr.Field+" accessed without "+pr.Lock+" | "+e.P.srcLine(instr.Pos()), goal)
+	e.curTags = save
 }
